@@ -149,6 +149,8 @@ func runC14(e *Env) error {
 	}
 	// (d) long literal text with multi-byte characters around the 32 KiB / 64 KiB buffer sizes comes out unchanged
 	bigTextOracle(e)
+	// (e) templates whose only tags are comments (no {{ and no {% anywhere), of every size class: the comments vanish
+	commentOnlyOracle(e)
 	return nil
 }
 
@@ -435,4 +437,40 @@ func padOracle(e *Env) error {
 		}
 	}
 	return nil
+}
+
+func commentOnlyOracle(e *Env) {
+	r := e.Rep
+	n := e.N(120, 4000)
+	for i := 0; i < n && !r.Full(); i++ {
+		var src, want strings.Builder
+		k := 1 + e.Rng.Intn(4)
+		for j := 0; j < k; j++ {
+			t := strings.NewReplacer("{{", "{ {", "{%", "{ %", "{#", "{ #").Replace(genLit(e.Rng, 10))
+			src.WriteString(t)
+			want.WriteString(t)
+			body := strings.NewReplacer("#}", "# }", "{{", "{ {", "{%", "{ %").Replace(genRaw(e.Rng, 10))
+			src.WriteString("{#" + body + "#}")
+		}
+		switch i % 4 {
+		case 1:
+			f := strings.Repeat("f", 4200)
+			src.WriteString(f)
+			want.WriteString(f)
+		case 2:
+			f := strings.Repeat("g", 70000)
+			src.WriteString(f)
+			want.WriteString(f)
+		}
+		res := renderSrc(src.String(), map[string]any{"a": 1})
+		r.Seen("comment-only:"+src.String(), true)
+		r.Hit("comment-only-template")
+		if res.Class != "" || res.Out != want.String() {
+			if r.Violate(Violation{Key: "comment-not-removed", What: fmt.Sprintf("a %d-byte template whose only tags are comments renders %q (%s), expected %q", len(src.String()), truncate(res.Out, 80), res.Class, truncate(want.String(), 80)),
+				Broken: "theorem C04_comment_inert_render / C14_scanners_agree_render (implementation-only oracle)",
+				Replay: map[string]any{"kind": "src", "src_hex": hx(truncate(src.String(), 600)), "len": len(src.String()), "got_hex": hx(truncate(res.Out, 600)), "class": res.Class}}) {
+				return
+			}
+		}
+	}
 }
